@@ -39,4 +39,59 @@ theorem classifyRx_encode (P : Prims) (m : Msg) (key : Option Bytes) (fp : Bool)
     classifyRx (encode P m key fp) = stunCase (encode P m key fp) := by
   rw [encode_eq_flat P m key fp hm]; exact classifyRx_stun m _
 
+/-! ### TURN over TCP: self-delimiting byte stream -/
+
+theorem isChannelByte_chan (ch : Nat) (h1 : 16384 ≤ ch) (h2 : ch ≤ 32767) : isChannelByte (UInt8.ofNat (ch / 256)) = true := by
+  have : ∀ n : Fin 128, 64 ≤ n.val → isChannelByte (UInt8.ofNat n.val) = true := by decide
+  exact this ⟨ch / 256, by omega⟩ (by show 64 ≤ ch / 256; omega)
+
+theorem isChannelByte_stun (m : Method) (c : Class) :
+    isChannelByte (UInt8.ofNat ((encMethodBits m ||| encClassBits c) / 256)) = false := by
+  cases m <;> cases c <;> decide
+
+/-- a ChannelData message written by `send` over TCP is read back by `recv`, whatever follows it -/
+theorem tcpNext_channelData (ch : Nat) (data rest : Bytes) (h1 : turnRxChannelLo ≤ ch) (h2 : ch ≤ turnRxChannelHi)
+    (hd : data.length < 65536) :
+    tcpNext (tcpWire (channelData ch data) ++ rest) = some (channelData ch data, rest) ∧
+    (tcpWire (channelData ch data)).length % 4 = 0 := by
+  simp only [turnRxChannelLo_val, turnRxChannelHi_val] at h1 h2
+  have hb := isChannelByte_chan ch h1 h2
+  have hch : ch < 65536 := by omega
+  have hw : tcpWire (channelData ch data) = channelData ch data ++ zeros (pad4 data.length) := by
+    simp only [channelData, be16, List.cons_append, List.nil_append, tcpWire, hb, ↓reduceIte, List.length_cons]
+    have : pad4 (data.length + 1 + 1 + 1 + 1) = pad4 data.length := by
+      rw [show data.length + 1 + 1 + 1 + 1 = 4 + data.length by omega]; exact pad4_add_aligned (by rfl)
+    rw [this]
+  constructor
+  · rw [hw]
+    simp only [channelData, be16, List.cons_append, List.nil_append, List.append_assoc, tcpNext, hb, ↓reduceIte]
+    rw [rd16_be16 hd]
+    have hlen : ¬ (data ++ (zeros (pad4 data.length) ++ rest)).length < data.length + pad4 data.length := by simp
+    have ht : (data ++ (zeros (pad4 data.length) ++ rest)).take data.length = data := take_append_len rfl
+    have hdrop : (data ++ (zeros (pad4 data.length) ++ rest)).drop (data.length + pad4 data.length) = rest := by
+      rw [← List.append_assoc]; exact drop_append_len (by simp)
+    simp only [hlen, ↓reduceIte, ht, hdrop]
+  · rw [hw]; simp [channelData]; have := add_pad4_mod data.length; omega
+
+/-- a STUN message (header with the right length ++ attribute area) goes out unframed and is read back by
+`recv`, whatever follows it -/
+theorem tcpNext_stun (m : Msg) (area rest : Bytes) (htx : m.tx.length = 12) (hlen : area.length < 65536) :
+    tcpWire (hdrL m area.length ++ area) = hdrL m area.length ++ area ∧
+    tcpNext (hdrL m area.length ++ area ++ rest) = some (hdrL m area.length ++ area, rest) := by
+  have hb := isChannelByte_stun m.method m.cls
+  have hc : cookieBytes = be32 stunMagicCookie := rfl
+  constructor
+  · simp only [hdrL, be16, List.cons_append, List.nil_append, tcpWire, hb]; simp
+  · simp only [hdrL, be16, hc, be32, List.cons_append, List.nil_append, List.append_assoc, tcpNext, hb]
+    rw [rd16_be16 hlen]
+    have h16 : (UInt8.ofNat (stunMagicCookie / 16777216) :: UInt8.ofNat (stunMagicCookie / 65536) ::
+        UInt8.ofNat (stunMagicCookie / 256) :: UInt8.ofNat stunMagicCookie :: (m.tx ++ area)).length = 16 + area.length := by
+      simp [htx]; omega
+    have e : (UInt8.ofNat (stunMagicCookie / 16777216) :: UInt8.ofNat (stunMagicCookie / 65536) ::
+        UInt8.ofNat (stunMagicCookie / 256) :: UInt8.ofNat stunMagicCookie :: (m.tx ++ (area ++ rest))) =
+        (UInt8.ofNat (stunMagicCookie / 16777216) :: UInt8.ofNat (stunMagicCookie / 65536) ::
+        UInt8.ofNat (stunMagicCookie / 256) :: UInt8.ofNat stunMagicCookie :: (m.tx ++ area)) ++ rest := by simp
+    rw [e, take_append_len h16, drop_append_len h16]
+    simp [htx]
+    omega
 end RtcModel.Turn
